@@ -8,7 +8,7 @@ def run_dumpers(repo, impl_dir, scratch):
     for name, extra in (('unidump_norm', ['-I' + repo + '/src']), ('unidump_fold', [])):
         exe = '%s/%s' % (scratch, name)
         p = subprocess.run(['gcc', '-w', '-O1', '-DHAVE_CONFIG_H', '-I' + impl_dir + '/inc', '-I' + repo] + extra +
-                           ['/verif/harness/dumpers/%s.c' % name, impl_dir + '/libimpl.a', '-o', exe], capture_output=True, text=True)
+                           [os.path.dirname(os.path.abspath(__file__)) + '/dumpers/%s.c' % name, impl_dir + '/libimpl.a', '-o', exe], capture_output=True, text=True)
         if p.returncode != 0: raise RuntimeError('cannot build %s: %s' % (name, p.stderr[-800:]))
         q = subprocess.run([exe], capture_output=True, text=True, timeout=300)
         if q.returncode != 0: raise RuntimeError('%s crashed (rc %d)' % (name, q.returncode))
